@@ -9,6 +9,7 @@ CONSTANTS
   TrackDist = TRUE
   TrackOperand = FALSE
   AdoptLists = FALSE
+  BookkeepFirst = FALSE
   CacheChecksCount = TRUE
 INVARIANT CacheFresh
 INVARIANT GraphAgrees
